@@ -16,7 +16,7 @@ func (g *gen) value() []byte {
 	case 3:
 		return []byte{}
 	case 4:
-		return []byte{0x80}
+		return [][]byte{{0x80}, {0x80}, {0, 0x80}, {0, 0, 0x80}, {0, 0}, {0x80, 0}, {0xff, 0x80}, {0x81}}[g.n("negzero", 0, 7)]
 	case 5:
 		return NumBytes([]int64{0x7fffffff, -0x7fffffff, 0x80000000, -0x80000000, 0x7fffffffff, 0xffffffff, 0x100000000}[g.n("big", 0, 6)])
 	case 6:
@@ -217,9 +217,10 @@ func (g *gen) grammarProgram(sv int) (script []byte, init [][]byte) {
 			p.emit(OP_DROP, OP_1)
 		}
 	}
-	if g.chance("tail", 4) {
+	if g.chance("tail", 5) {
 		// unparsable tail
-		p.script = append(p.script, [][]byte{{OP_PUSHDATA1}, {OP_PUSHDATA2, 1}, {5, 1, 2}, {OP_PUSHDATA4, 1, 0, 0}, {OP_PUSHDATA1, 200, 1}}[g.n("tailk", 0, 4)]...)
+		p.script = append(p.script, [][]byte{{OP_PUSHDATA1}, {OP_PUSHDATA2, 1}, {5, 1, 2}, {OP_PUSHDATA4, 1, 0, 0}, {OP_PUSHDATA1, 200, 1},
+			{OP_PUSHDATA4, 0xff, 0xff, 0xff, 0xff}, {OP_PUSHDATA4, 0, 0, 0, 0x80, 1}, {OP_PUSHDATA4, 0xff, 0xff, 0xff, 0x7f}}[g.n("tailk", 0, 7)]...)
 	}
 	return p.script, init
 }
